@@ -522,6 +522,7 @@ func cmdSelftest(args []string) int {
 	fs := flag.NewFlagSet("selftest", flag.ExitOnError)
 	verif := fs.String("verif", "/verif", "verif root")
 	only := fs.String("p", "", "only entries of this property")
+	repo := fs.String("repo", "/repo", "repository root")
 	fs.Parse(args)
 	data, err := os.ReadFile(*verif + "/selftest/mutants.json")
 	if err != nil {
@@ -561,7 +562,7 @@ func cmdSelftest(args []string) int {
 			defer wg.Done()
 			sem <- struct{}{}
 			defer func() { <-sem }()
-			cmd := exec.Command(exe, "check", en.Property, "-q", "-noevidence", "-mut", en.File+"::"+en.Find+"::"+en.Replace)
+			cmd := exec.Command(exe, "check", en.Property, "-q", "-noevidence", "-repo", *repo, "-verif", *verif, "-mut", en.File+"::"+en.Find+"::"+en.Replace)
 			b, _ := cmd.CombinedOutput()
 			n := strings.Count(string(b), "VIOLATION property="+en.Property)
 			engineErr := strings.Contains(string(b), "engine error")
